@@ -39,7 +39,7 @@ def eval_history(arg):
             if step > 0:
                 project.apply_edit(st, ops[step - 1])
             files = project.render(st)
-            changed = proj.sync(files)
+            changed = proj.sync(files, project.unlisted_paths(st))
             targets = proj.targets()
             # oracle: cold run
             cdir = mypyrun.scratch("c02cold")
